@@ -321,6 +321,11 @@ func ShrinkScenario(sc Scenario) []Scenario {
 			c.Gens[i].CustomNew = false
 			out = append(out, c)
 		}
+		if sc.Gens[i].Proto {
+			c := clone(sc)
+			c.Gens[i].Proto = false
+			out = append(out, c)
+		}
 	}
 	for pi, p := range sc.Module.Pkgs {
 		for ti := range p.Types {
